@@ -20,27 +20,52 @@ func c09Assumptions(o *Own) {
 	o.Assume["Agent.createRelayCandidate: return under [($err != nil)]|nClose"] = "NewCandidateRelay fails only on an unparsable address; the address is net.IP.String() of the relayed or mapped address and the network is the constant udp"
 }
 
-// c09Scope: the functions whose acquisitions belong to gathering.
+// c09Scope: the functions whose acquisitions belong to gathering — everything
+// reachable (calls, goroutines, function values) from the gathering pass and
+// from the active-TCP admission, as far as it is agent code (methods of Agent,
+// package-level functions, the active-TCP connection and their literals), plus
+// the multi-mux fan-out that collects one connection per mux. The muxes' own
+// internals are C12/C13/C15 territory.
 func c09Scope(p *Prog) []*Func {
+	var roots []*Func
+	for _, n := range []string{"Agent.gatherCandidatesInternal", "Agent.addRemotePassiveTCPCandidate"} {
+		if f := p.Fn(n); f != nil {
+			roots = append(roots, f)
+		}
+	}
+	reach := p.CG().Reachable(roots, func(e *CallEdge) bool { return true })
+	in := map[*Func]bool{}
+	for _, r := range roots {
+		in[r] = true
+	}
+	for f := range reach {
+		in[f] = true
+	}
+	if f := p.Fn("MultiTCPMuxDefault.GetAllConns"); f != nil {
+		in[f] = true
+	}
+	agentCode := func(f *Func) bool {
+		root := f.Root()
+		if root.Pkg != p.Ice || root.Decl == nil {
+			return false
+		}
+		if root.Name == "MultiTCPMuxDefault.GetAllConns" {
+			return true
+		}
+		if root.Decl.Recv == nil {
+			return true
+		}
+		switch recvTypeName(root.Decl.Recv.List[0].Type) {
+		case "Agent", "activeTCPConn":
+			return true
+		}
+		return false
+	}
 	var fs []*Func
 	for _, f := range p.AllFuncs {
-		if f.Body == nil || f.Pkg != p.Ice {
-			continue
+		if f.Body != nil && (in[f] || in[f.Root()]) && agentCode(f) {
+			fs = append(fs, f)
 		}
-		file := p.Pos(f.Body.Pos())
-		if i := strings.Index(file, ":"); i >= 0 {
-			file = file[:i]
-		}
-		root := f.Root().Name
-		switch {
-		case file == "gather.go", file == "active_tcp.go":
-		case file == "net.go" && root == "listenUDPInPortRange":
-		case file == "tcp_mux_multi.go" && root == "MultiTCPMuxDefault.GetAllConns":
-		case file == "agent.go" && root == "Agent.addRemotePassiveTCPCandidate":
-		default:
-			continue
-		}
-		fs = append(fs, f)
 	}
 	return fs
 }
